@@ -1368,6 +1368,22 @@ fn injection_for_match<'a>(
     (language_name, content_node, include_children)
 }
 
+/// Verification hook (add-only, compiled only under the verification cfg): lets the C17 check
+/// call the private injection-range computation on arbitrary parent ranges and nodes.
+#[cfg(tree_sitter_tree_sitter_verif)]
+pub mod verif {
+    use super::{HighlightIterLayer, Node, Range};
+
+    #[must_use]
+    pub fn intersect_ranges(
+        parent_ranges: &[Range],
+        nodes: &[Node],
+        includes_children: bool,
+    ) -> Vec<Range> {
+        HighlightIterLayer::intersect_ranges(parent_ranges, nodes, includes_children)
+    }
+}
+
 fn shrink_and_clear<T>(vec: &mut Vec<T>, capacity: usize) {
     if vec.len() > capacity {
         vec.truncate(capacity);
